@@ -35,7 +35,6 @@ enum Step {
 }
 
 struct InFlight {
-    #[allow(dead_code)]
     tid: ThreadId,
     rx: mpsc::Receiver<Reply>,
     meta: Meta,
@@ -172,24 +171,33 @@ impl Run {
         }
     }
 
-    /// Waits until the thread `tid` has delivered on `poll` or is blocked for good (waiting on the
-    /// condition variable, or asking for a lock while nothing in the process makes progress).
+    /// Is thread `t` blocked for good?  Decided from the wait-for graph, not from a time-out: it waits on the
+    /// condition variable while the flag is false (only a successful poll of the chain monitor raises it, and the
+    /// caller asks only when no poll is on its way to do so), or it asks for a lock whose holder is blocked for good.
+    fn certainly_blocked(&self, t: ThreadId, depth: u32) -> bool {
+        if self.rec.is_waiting(t) {
+            return self.tower_knows_down();
+        }
+        match self.rec.requested_by(t) {
+            Some(l) if depth < 4 => match self.rec.holder_of(l, t) {
+                Some(h) => self.certainly_blocked(h, depth + 1),
+                None => false,
+            },
+            _ => false,
+        }
+    }
+
+    /// Waits until the thread `tid` has delivered on `rx` or is blocked for good (10 s is only the fallback).
     fn settle<T>(&self, tid: Option<ThreadId>, rx: &mpsc::Receiver<T>) -> Option<T> {
         let t0 = Instant::now();
-        let mut last_events = self.rec.events();
-        let mut stable_since = Instant::now();
         loop {
             if let Ok(v) = rx.recv_timeout(Duration::from_millis(2)) {
                 return Some(v);
             }
-            let ev = self.rec.events();
-            if ev != last_events {
-                last_events = ev;
-                stable_since = Instant::now();
-            }
-            let blocked = tid.map(|t| self.rec.is_waiting(t) || self.rec.requested_by(t).is_some()).unwrap_or(false);
-            if blocked && stable_since.elapsed() > Duration::from_millis(60) {
-                return None;
+            let blocked = tid.map(|t| self.certainly_blocked(t, 0)).unwrap_or(false);
+            if blocked {
+                // the reply may have been sent just before the thread was seen blocked in a LATER wait: look once more
+                return rx.try_recv().ok();
             }
             if t0.elapsed() > Duration::from_secs(10) {
                 return None;
@@ -265,20 +273,17 @@ impl Run {
                 }
                 self.mon.start_poll();
                 let t0 = Instant::now();
-                let mut last_events = self.rec.events();
-                let mut stable_since = Instant::now();
                 loop {
                     if let Some(ok) = self.mon.try_finish(Duration::from_millis(2)) {
                         self.out.push(format!("poll{idx}:{}", if ok { "returned" } else { "PANIC" }));
                         break;
                     }
-                    let ev = self.rec.events();
-                    if ev != last_events {
-                        last_events = ev;
-                        stable_since = Instant::now();
-                    }
-                    let blocked = self.mon_tid.map(|t| self.rec.is_waiting(t) || self.rec.requested_by(t).is_some()).unwrap_or(false);
-                    if (blocked && stable_since.elapsed() > Duration::from_millis(60)) || t0.elapsed() > Duration::from_secs(10) {
+                    let blocked = self.mon_tid.map(|t| self.certainly_blocked(t, 0)).unwrap_or(false);
+                    if blocked || t0.elapsed() > Duration::from_secs(10) {
+                        if let Some(ok) = self.mon.try_finish(Duration::from_millis(0)) {
+                            self.out.push(format!("poll{idx}:{}", if ok { "returned" } else { "PANIC" }));
+                            break;
+                        }
                         let t = self.mon_tid.unwrap();
                         let why = if self.rec.is_waiting(t) {
                             format!("waits-reachable,holds={:?}", self.rec.held_by(t))
@@ -355,6 +360,18 @@ impl Run {
             if polls && !self.mon.polling {
                 self.step(&Step::Poll, 900 + i);
             }
+        }
+        // a woken thread may still be on its way: wait for every request in flight until it has answered or is
+        // blocked for good, and for a poll in flight likewise
+        let t0 = Instant::now();
+        while t0.elapsed() < Duration::from_secs(10) {
+            self.collect_finished();
+            let mon_busy = self.mon.polling && !self.mon_tid.map(|t| self.certainly_blocked(t, 0)).unwrap_or(false);
+            let api_busy = self.inflight.iter().any(|f| !self.certainly_blocked(f.tid, 0));
+            if !mon_busy && !api_busy {
+                break;
+            }
+            std::thread::sleep(Duration::from_millis(2));
         }
         self.collect_finished();
         self.monitor_stuck = self.mon.polling;
